@@ -278,8 +278,8 @@ pub fn init() {
                 let t = TICK.load(Ordering::Relaxed);
                 if t != last.0 {
                     last = (t, std::time::Instant::now());
-                } else if last.1.elapsed().as_secs() >= 20 {
-                    eprintln!("HARNESS-ERROR: watchdog: no yield point for 20 s while a run is active (a simulated thread is blocked in the kernel or looping)");
+                } else if last.1.elapsed().as_secs() >= 240 {
+                    eprintln!("HARNESS-ERROR: watchdog: no yield point for 240 s while a run is active (a simulated thread is blocked in the kernel or looping)");
                     std::process::exit(2);
                 }
             }
